@@ -33,6 +33,9 @@ const STRING_DATA_TABLE_NAME: &str = "_StringData";
 const STRING_POOL_TABLE_NAME: &str = "_StringPool";
 
 const MAX_NUM_TABLE_COLUMNS: usize = 32;
+// The `_Validation` table, which gets a row for every column of every table,
+// holds table and column names of at most this many characters.
+const MAX_CATALOG_NAME_LEN: usize = 32;
 
 // ========================================================================= //
 
@@ -600,6 +603,13 @@ impl<F: Read + Write + Seek> Package<F> {
         if !Table::is_valid_name(&table_name) {
             invalid_input!("{:?} is not a valid table name", table_name);
         }
+        if table_name.chars().count() > MAX_CATALOG_NAME_LEN {
+            invalid_input!(
+                "Table name {:?} is too long (at most {} characters)",
+                table_name,
+                MAX_CATALOG_NAME_LEN
+            );
+        }
         if columns.is_empty() {
             invalid_input!("Cannot create a table with no columns");
         }
@@ -620,6 +630,13 @@ impl<F: Read + Write + Seek> Package<F> {
                 let name = column.name();
                 if !Column::is_valid_name(name) {
                     invalid_input!("{:?} is not a valid column name", name);
+                }
+                if name.chars().count() > MAX_CATALOG_NAME_LEN {
+                    invalid_input!(
+                        "Column name {:?} is too long (at most {} characters)",
+                        name,
+                        MAX_CATALOG_NAME_LEN
+                    );
                 }
                 if !column.is_storable() {
                     invalid_input!(
